@@ -502,6 +502,12 @@ class Exec:
 
     def binop(self, op, a, b, st, fr, node=None):
         on = type(op).__name__
+        for which, x in (('a', a), ('b', b)):
+            if isinstance(x, SOpt) and isinstance(x.inner, (SVal, SInt)):
+                # an optional number as operand: None raises TypeError, otherwise the number itself
+                def some(s, which=which, x=x):
+                    return self.binop(op, x.inner if which == 'a' else a, x.inner if which == 'b' else b, s, fr, node)
+                return self.split(x.isnone, st, lambda s: self.exc('TypeError', s), some)
         if isinstance(a, SInt) and isinstance(b, SInt):
             if on == 'Add':
                 return self.ok(SInt(a.t + b.t), st)
